@@ -641,7 +641,18 @@ class CosseratRodIO(IO):
     @override
     def save(self, h5_file_name: str, time: float = 0.0) -> None:
         self._update_rod_element_position()
+        self._update_rod_radius_reference()
         self._save(h5_file_name=h5_file_name, time=time)
+
+    @override
+    def load(self, h5_file_name: str) -> float:
+        self._update_rod_radius_reference()
+        return super().load(h5_file_name=h5_file_name)
+
+    def _update_rod_radius_reference(self) -> None:
+        # PyElastica re-binds the rod's arrays when the simulator is finalised,
+        # so the array registered at construction may no longer be the rod's radius
+        self.lagrangian_fields["scalar_3d"] = self.cosserat_rod.radius
 
     def _update_rod_element_position(self) -> None:
         self.rod_element_position[...] = 0.5 * (
